@@ -553,9 +553,22 @@ done:
  * Remarks: none
  *---------------------------------------------------------------------------*/
 
+/* The elements that describe a raster image group (NT, ID, LUT, LD) are written with the group's ref;
+ * that ref is only known to be unused for DFTAG_RIG.  If another interface already owns <tag, ref>
+ * (DFSD writes its number type as <DFTAG_NT, ref of its data group>), take a ref that is free for
+ * the tag instead of overwriting the other object's element. */
+static uint16
+DFGRIunusedref(int32 file_id, uint16 tag, uint16 ref)
+{
+    if (Hexist(file_id, tag, ref) == SUCCEED)
+        return Htagnewref(file_id, tag);
+    return ref;
+}
+
 static int
 DFGRaddrig(int32 file_id, uint16 ref, DFGRrig *rig)
 {
+    uint16 eref; /* ref an accompanying element is written with */
     uint8 ntstring[4];
     int32 lutsize;
     int32 GroupID;
@@ -578,11 +591,13 @@ DFGRaddrig(int32 file_id, uint16 ref, DFGRrig *rig)
         ntstring[1] = DFNT_UCHAR;   /* type */
         ntstring[2] = 8;            /* width: RIG data is 8-bit chars */
         ntstring[3] = DFNTC_BYTE;   /* class: data are numeric values */
-        if (Hputelement(file_id, DFTAG_NT, ref, (uint8 *)ntstring, (int32)4) == FAIL)
+        if ((eref = DFGRIunusedref(file_id, DFTAG_NT, ref)) == 0)
+            HGOTO_ERROR(DFE_NOREF, FAIL);
+        if (Hputelement(file_id, DFTAG_NT, eref, (uint8 *)ntstring, (int32)4) == FAIL)
             HGOTO_ERROR(DFE_PUTELEM, FAIL);
         rig->datadesc[IMAGE].nt.tag = DFTAG_NT;
-        rig->datadesc[IMAGE].nt.ref = ref;
-        Ref.nt                      = (int)ref;
+        rig->datadesc[IMAGE].nt.ref = eref;
+        Ref.nt                      = (int)eref;
     }
 
     if (Ref.dims[IMAGE] == 0) {
@@ -598,20 +613,24 @@ DFGRaddrig(int32 file_id, uint16 ref, DFGRrig *rig)
         UINT16ENCODE(p, rig->datadesc[IMAGE].compr.tag);
         UINT16ENCODE(p, rig->datadesc[IMAGE].compr.ref);
 
-        if (Hputelement(file_id, DFTAG_ID, ref, GRtbuf, (int32)(p - GRtbuf)) == FAIL)
+        if ((eref = DFGRIunusedref(file_id, DFTAG_ID, ref)) == 0)
+            HGOTO_ERROR(DFE_NOREF, FAIL);
+        if (Hputelement(file_id, DFTAG_ID, eref, GRtbuf, (int32)(p - GRtbuf)) == FAIL)
             HGOTO_ERROR(DFE_PUTELEM, FAIL);
 
-        Ref.dims[IMAGE] = (int16)ref;
+        Ref.dims[IMAGE] = (int16)eref;
     }
     if (!Ref.lut) {            /* associated lut not written to this file */
         if (Grlutdata == NULL) /* no lut associated */
             HGOTO_ERROR(DFE_ARGS, FAIL);
         lutsize = Grwrite.datadesc[LUT].xdim * Grwrite.datadesc[LUT].ydim * Grwrite.datadesc[LUT].ncomponents;
-        if (Hputelement(file_id, DFTAG_LUT, ref, Grlutdata, (int32)lutsize) == FAIL)
+        if ((eref = DFGRIunusedref(file_id, DFTAG_LUT, ref)) == 0)
+            HGOTO_ERROR(DFE_NOREF, FAIL);
+        if (Hputelement(file_id, DFTAG_LUT, eref, Grlutdata, (int32)lutsize) == FAIL)
             HGOTO_ERROR(DFE_PUTELEM, FAIL);
         rig->data[LUT].tag = DFTAG_LUT;
-        rig->data[LUT].ref = ref;
-        Ref.lut            = (int)ref;
+        rig->data[LUT].ref = eref;
+        Ref.lut            = (int)eref;
     }
 
     if (Ref.dims[LUT] == 0) {
@@ -625,9 +644,11 @@ DFGRaddrig(int32 file_id, uint16 ref, DFGRrig *rig)
         INT16ENCODE(p, rig->datadesc[LUT].interlace);
         UINT16ENCODE(p, rig->datadesc[LUT].compr.tag);
         UINT16ENCODE(p, rig->datadesc[LUT].compr.ref);
-        if (Hputelement(file_id, DFTAG_LD, ref, GRtbuf, (int32)(p - GRtbuf)) == FAIL)
+        if ((eref = DFGRIunusedref(file_id, DFTAG_LD, ref)) == 0)
+            HGOTO_ERROR(DFE_NOREF, FAIL);
+        if (Hputelement(file_id, DFTAG_LD, eref, GRtbuf, (int32)(p - GRtbuf)) == FAIL)
             HGOTO_ERROR(DFE_PUTELEM, FAIL);
-        Ref.dims[LUT] = (int16)ref;
+        Ref.dims[LUT] = (int16)eref;
     }
 
     /* prepare to start writing rig */
